@@ -641,6 +641,8 @@ def c05_oracle_cases(tier, seed):
     for k in range(n // 2):
         hist = [rng.choice(p_tty.HIST_POOL) for _ in range(rng.choice([1, 2, 3]))]
         cands = rng.sample(["foo", "foobar", "fo", "a", "ab", "abc", "b", "x y", "é", ""], rng.choice([0, 2, 3]))
+        if cands and rng.random() < 0.3:
+            cands = ["*"] + cands          # unfiltered script: offered whatever the word is
         A = gen_c05_cmds(rng, rng.randint(0, 10))
         B = gen_c05_cmds(rng, rng.randint(2, 12), kills=False) + [Cmd(["C-_"], "undo", n=1)] * rng.randint(1, 4) + [Cmd(["Enter"], "enter")]
         ep = abort_episode(rng, hist, cands)
@@ -1226,13 +1228,15 @@ def completer(table, text, pos):
             k = j + 1
     start = blen(before[:k])
     word = before[k:]
+    if table and table[0] == [0x2A]:      # unfiltered script: every other entry, whatever the word is
+        return start, list(table[1:])
     return start, [c for c in table if c[:len(word)] == word]
 
 
 def gen_c14(rng, ct, cands=()):
     cmds = []
     if cands and rng.random() < 0.75:
-        c = rng.choice(list(cands))
+        c = rng.choice([x for x in cands if x != "*"] or ["fo"])
         typed = rng.choice(["", "cd ", "a  "]) + c[:rng.randint(0, len(c))]
     else:
         typed = p_tty.rand_text(rng, 0, 6, ["f", "o", "b", "a", " ", "é", "x"])
@@ -1266,6 +1270,9 @@ def c14_oracle_cases(tier, seed):
     for _ in range(n):
         ct = rng.choice(["circular", "circular", "list"])
         cands = rng.sample(C14_CANDS, rng.choice([1, 2, 3, 4, 6]))
+        if rng.random() < 0.3:
+            # unfiltered script: the completer offers these whatever the word is (shorter, unrelated, empty candidates)
+            cands = ["*"] + rng.sample(C14_CANDS + ["", "w", "o"], rng.choice([1, 2, 2, 3, 4]))
         cases.append(script_case(gen_c14(rng, ct, cands), mode="emacs", completion=ct, cands=cands, timeout=0,
                                  prompt=rng.choice(["> ", "日> "]), cols=rng.choice([80, 80, 30]),
                                  initial=p_tty.mk_initial(rng, 0.4, ["f", "o", " ", "b", "a", "é", "|"])))
